@@ -428,3 +428,15 @@ def _audit_state(ctx, w):
             actual = model.ref_digest("md5", f.read())
         if val != actual:
             ctx.violate("state-vouches-wrong-hash", "any", f"{ctx.seam.rel(path)} row={val[:8]} actual={actual[:8]}")
+
+
+def extra_coverage(prop, recs):
+    sigs = {r["res"].get("state_sig") for r in recs if not r.get("skipped") and r["res"].get("state_sig")}
+    nt = {r["res"].get("state_sig") for r in recs if not r.get("skipped") and r["res"].get("nontrivial")}
+    cs = sum(r["res"].get("stats", {}).get("context_switches", 0) for r in recs if not r.get("skipped"))
+    return {
+        "interleavings_distinct": len(sigs),
+        "interleavings_distinct_with_contention": len(nt),
+        "interleaving_measure": "distinct per-path writer-order signatures: for every store path, the sequence of writer ids over its mutating events, hashed per run",
+        "context_switches_total": cs,
+    }
